@@ -13,7 +13,15 @@
 (*    current_revision and unwinds with Cancelled when a write is pending   *)
 (*    (Analysis::with_db turns that into Err(Cancelled)).                   *)
 (*  - apply_change(change) = request_cancellation (a synthetic write) and   *)
-(*    then one salsa `set_*` per touched file.  Each of these writes:       *)
+(*    then Change::apply: the writes the Change carries, in the order they  *)
+(*    were queued - first the roots / package graph if it has them (salsa    *)
+(*    writes that store no file text: entries 0), then one `set_file_content`*)
+(*    per QUEUED content.  The server queues one content per edit it took    *)
+(*    from the editor, so a Change may hold two successive contents for the  *)
+(*    same file (entry -f = an intermediate text of file f, entry f = the    *)
+(*    text f has when the Change is complete); the abstract effect of the    *)
+(*    call is "last content queued per file" (ApplyEffect, NoIntermediate).  *)
+(*    Each of these writes:                                                  *)
 (*    (1) pending_revision += 1   -- the cancellation flag, no lock needed  *)
 (*    (2) query_lock.write()      -- waits until every snapshot is dropped  *)
 (*    (3) current_revision += 1 (flag is down again), store the value       *)
@@ -36,14 +44,20 @@ CONSTANTS Readers,        \* reader threads
           MaxQ,           \* queries per snapshot
           ExclusiveHost,  \* snapshot() impossible while apply_change runs (&self / &mut self)
           ChecksFlag,     \* query entries check the pending-write flag
-          SyntheticWrite  \* apply_change starts with request_cancellation (unobservable: see NOTE below)
+          SyntheticWrite, \* apply_change starts with request_cancellation (unobservable: see NOTE below)
+          LastWins,       \* Change::apply stores every queued content in queue order (so the last one stays)
+          MaxDup,         \* at most this many files of one Change carry an intermediate content before the final one
+          MaxMeta         \* at most this many writes without file text (roots, package graph) open a Change
 
 VARIABLES ver,          \* completed apply_change calls = version a new snapshot sees
-          inputs,       \* [Files -> 0..K] live salsa inputs: the change that last wrote each file
+          inputs,       \* [Files -> 0..2K] live salsa inputs: the content id of each file (c = final text of change c,
+                        \*                 K + c = an intermediate text queued by change c before its final one)
           inputsAt,     \* inputsAt[v+1] = the inputs of version v  (history variable)
           pendingWrite, \* pending_revision > current_revision
           wpc,          \* "idle" | "called" | "flagged" (flag up, waiting for the write lock) | "setting" (lock held)
-          todo,         \* writes left in the apply_change in progress: file ids, 0 = the synthetic write
+          todo,         \* writes left in the apply_change in progress: f = final text of file f, -f = an intermediate
+                        \*   text of file f, 0 = a write without file text (synthetic write, roots, package graph)
+          batch,        \* all the writes of the apply_change in progress (= todo when it was called)
           chg,          \* the change in progress (= content id it stores)
           rpc,          \* "idle" (no snapshot) | "ready" | "running" | "done"
           snapVer,      \* version current when r's snapshot was taken
@@ -52,22 +66,41 @@ VARIABLES ver,          \* completed apply_change calls = version a new snapshot
           nq,           \* queries started on r's snapshot
           result        \* [kind : {"none","ok","cancelled"}, obs : [Files -> -1..K]]
 
-vars == <<ver, inputs, inputsAt, pendingWrite, wpc, todo, chg, rpc, snapVer, acc, tick, nq, result>>
-wvars == <<ver, inputs, inputsAt, pendingWrite, wpc, todo, chg>>
+vars == <<ver, inputs, inputsAt, pendingWrite, wpc, todo, batch, chg, rpc, snapVer, acc, tick, nq, result>>
+wvars == <<ver, inputs, inputsAt, pendingWrite, wpc, todo, batch, chg>>
 rvars == <<rpc, snapVer, acc, tick, nq, result>>
 
 Unread == [f \in Files |-> -1]
 NoResult == [kind |-> "none", obs |-> Unread]
 Obs(inp) == inp           \* what a query answers is a function of all inputs; identity = most discriminating
 
-RECURSIVE Ascending(_)
-Ascending(S) == IF S = {} THEN <<>>
-                ELSE LET m == CHOOSE x \in S : \A y \in S : x <= y IN <<m>> \o Ascending(S \ {m})
+Abs(x) == IF x < 0 THEN -x ELSE x
+Mid(c) == K + c                                  \* different from every final content 0..K and from every other Mid
+ContentOf(e, c) == IF e > 0 THEN c ELSE Mid(c)   \* what write e of change c stores
+
+(* The file writes of one Change, in queue order: every touched file once with its final text, up to MaxDup of *)
+(* them also with an intermediate text somewhere BEFORE it (any interleaving with the other files' writes).    *)
+Entries == Files \cup {-f : f \in Files}
+WellFormed(b) == /\ Len(b) >= 1
+                 /\ \A i \in 1..Len(b) : b[i] \in Entries
+                 /\ \A i, j \in 1..Len(b) : i # j => b[i] # b[j]
+                 /\ \A i \in 1..Len(b) : b[i] < 0 => \E j \in (i+1)..Len(b) : b[j] = -b[i]
+                 /\ Cardinality({i \in 1..Len(b) : b[i] < 0}) <= MaxDup
+AllBatches == {b \in UNION {[1..n -> Entries] : n \in 1..(Cardinality(Files) + MaxDup)} : WellFormed(b)}
+Zeros(n) == [i \in 1..n |-> 0]
+(* a whole Change: writes without file text first (Change::apply sets package graph and roots first) *)
+WellFormedTodo(t) == \E n \in 0..(Len(t) - 1) : /\ \A i \in 1..n : t[i] = 0
+                                                /\ WellFormed(SubSeq(t, n + 1, Len(t)))
+
+(* the abstract effect of applying the writes b of change c to the workspace old: last content queued per file *)
+Touched(b) == {Abs(b[i]) : i \in 1..Len(b)} \ {0}
+LastIdx(b, f) == CHOOSE i \in 1..Len(b) : Abs(b[i]) = f /\ \A j \in (i+1)..Len(b) : Abs(b[j]) # f
+Effect(old, b, c) == [f \in Files |-> IF f \in Touched(b) THEN ContentOf(b[LastIdx(b, f)], c) ELSE old[f]]
 
 Live(r) == rpc[r] # "idle"      \* r holds the read lock
 
 Init == /\ ver = 0 /\ inputs = [f \in Files |-> 0] /\ inputsAt = <<[f \in Files |-> 0]>>
-        /\ pendingWrite = FALSE /\ wpc = "idle" /\ todo = <<>> /\ chg = 0
+        /\ pendingWrite = FALSE /\ wpc = "idle" /\ todo = <<>> /\ batch = <<>> /\ chg = 0
         /\ rpc = [r \in Readers |-> "idle"] /\ snapVer = [r \in Readers |-> 0]
         /\ acc = [r \in Readers |-> Unread] /\ tick = [r \in Readers |-> FALSE]
         /\ nq = [r \in Readers |-> 0] /\ result = [r \in Readers |-> NoResult]
@@ -122,34 +155,42 @@ Drop(r) == /\ rpc[r] \in {"ready", "done"}
 ----------------------------------------------------------------------------
 (* the writer *)
 
-ApplyCall == /\ wpc = "idle" /\ ver < K
-             /\ \E touch \in SUBSET Files \ {{}} :
-                  todo' = (IF SyntheticWrite THEN <<0>> ELSE <<>>) \o Ascending(touch)
-             /\ chg' = ver + 1
-             /\ wpc' = "called"
-             /\ UNCHANGED <<ver, inputs, inputsAt, pendingWrite, rvars>>
+ApplyCallWith(t) == /\ wpc = "idle" /\ ver < K
+                    /\ todo' = t /\ batch' = t
+                    /\ chg' = ver + 1
+                    /\ wpc' = "called"
+                    /\ UNCHANGED <<ver, inputs, inputsAt, pendingWrite, rvars>>
+
+ApplyCall == \E b \in AllBatches, m \in 0..MaxMeta :
+               ApplyCallWith(Zeros((IF SyntheticWrite THEN 1 ELSE 0) + m) \o b)
 
 ApplyBegin == /\ wpc = "called" /\ todo # <<>>          \* pending_revision.fetch_then_increment()
               /\ pendingWrite' = TRUE
               /\ wpc' = "flagged"
-              /\ UNCHANGED <<ver, inputs, inputsAt, todo, chg, rvars>>
+              /\ UNCHANGED <<ver, inputs, inputsAt, todo, batch, chg, rvars>>
 
 ApplyAcquire == /\ wpc = "flagged"                      \* query_lock.write(); revisions[0] += 1
                 /\ \A r \in Readers : ~Live(r)
                 /\ pendingWrite' = FALSE
                 /\ wpc' = "setting"
-                /\ UNCHANGED <<ver, inputs, inputsAt, todo, chg, rvars>>
+                /\ UNCHANGED <<ver, inputs, inputsAt, todo, batch, chg, rvars>>
+
+(* f was already stored by an earlier write of the apply_change in progress *)
+Written(f) == \E i \in 1..(Len(batch) - Len(todo)) : Abs(batch[i]) = f
 
 ApplySet == /\ wpc = "setting"                          \* op(new_revision); drop(lock)
-            /\ inputs' = IF Head(todo) = 0 THEN inputs ELSE [inputs EXCEPT ![Head(todo)] = chg]
+            /\ LET e == Head(todo) IN
+                 inputs' = IF e = 0 \/ (~LastWins /\ Written(Abs(e))) THEN inputs
+                           ELSE [inputs EXCEPT ![Abs(e)] = ContentOf(e, chg)]
             /\ todo' = Tail(todo)
             /\ wpc' = "called"
-            /\ UNCHANGED <<ver, inputsAt, pendingWrite, chg, rvars>>
+            /\ UNCHANGED <<ver, inputsAt, pendingWrite, batch, chg, rvars>>
 
 ApplyEnd == /\ wpc = "called" /\ todo = <<>>            \* apply_change returns
             /\ ver' = ver + 1
             /\ inputsAt' = Append(inputsAt, inputs)
             /\ wpc' = "idle"
+            /\ batch' = <<>>
             /\ UNCHANGED <<inputs, pendingWrite, todo, chg, rvars>>
 
 ----------------------------------------------------------------------------
@@ -165,10 +206,11 @@ Next == \/ \E r \in Readers : Snapshot(r) \/ ReaderStep(r)
 Spec == Init /\ [][Next]_vars /\ (\A r \in Readers : WF_vars(ReaderStep(r))) /\ WF_vars(WriterStep)
 
 ----------------------------------------------------------------------------
-Vals == -1 .. K
-TypeOK == /\ ver \in 0..K /\ inputs \in [Files -> 0..K] /\ Len(inputsAt) = ver + 1
+Vals == -1 .. 2 * K
+TypeOK == /\ ver \in 0..K /\ inputs \in [Files -> 0..2*K] /\ Len(inputsAt) = ver + 1
           /\ pendingWrite \in BOOLEAN /\ wpc \in {"idle", "called", "flagged", "setting"}
-          /\ chg \in 0..K /\ \A i \in 1..Len(todo) : todo[i] \in Files \cup {0}
+          /\ chg \in 0..K /\ \A i \in 1..Len(batch) : batch[i] \in Entries \cup {0}
+          /\ Len(todo) <= Len(batch) /\ todo = SubSeq(batch, Len(batch) - Len(todo) + 1, Len(batch))
           /\ rpc \in [Readers -> {"idle", "ready", "running", "done"}]
           /\ snapVer \in [Readers -> 0..K] /\ acc \in [Readers -> [Files -> Vals]]
           /\ nq \in [Readers -> 0..MaxQ]
@@ -198,6 +240,17 @@ SnapshotSeesCommitted == [][\A r \in Readers : (~Live(r) /\ Live(r)') =>
 (* Cancelled is reported only while a write is pending *)
 CancelledOnlyIfPending == \A r \in Readers :
                             (rpc[r] = "done" /\ result[r].kind = "cancelled") => pendingWrite
+
+(* A Change with several contents for one file: what apply_change leaves behind is the LAST content queued per *)
+(* file (action property, at the step in which apply_change returns) ...                                      *)
+ApplyEffect == [][(wpc # "idle" /\ wpc' = "idle") => inputs' = Effect(inputsAt[ver + 1], batch, chg)]_vars
+
+(* ... so no completed version contains an intermediate text, the workspace a new snapshot can see never has   *)
+(* one, and no query ever reads one or answers for one: answers are for the old version, the new one, or       *)
+(* Cancelled                                                                                                   *)
+NoIntermediate == /\ \A i \in 1..Len(inputsAt) : \A f \in Files : inputsAt[i][f] \in 0..K
+                  /\ wpc = "idle" => \A f \in Files : inputs[f] \in 0..K
+                  /\ \A r \in Readers : \A f \in Files : acc[r][f] \in -1..K /\ result[r].obs[f] \in -1..K
 
 (* versions differ from each other: every change is visible *)
 VersionsDistinct == \A i, j \in 1..Len(inputsAt) : i # j => inputsAt[i] # inputsAt[j]
